@@ -27,6 +27,8 @@ def run(ctx):
     lib_order.comparators(ctx, P)
     lib_schema.argname(ctx, P, tus=("tables",), funcs=srt)
     lib_py.row_independent(ctx, py)
+    lib_kind.py_tokenise_siblings(ctx, py)
+    lib_kind.py_unknown_time(ctx, py)
     lib_py.unused_params(ctx, py, mods=("text_formats", "trees"), only=scopes.py_scope("C17"))
     lib_kind.py_lints(ctx, py, mods=("text_formats", "trees"), only=scopes.py_scope("C17"))
     lib_mem.c_lints(ctx, ctx.program(), scopes.lib_scope("C17"), tus=["tables"])
